@@ -5,6 +5,7 @@ document `docOf d` under the writer's layout, and the `.bib` reader reads it bac
 -/
 import PybtexModel.Lemmas.BibWritePieces
 import PybtexModel.Lemmas.BibRoundTrip
+import PybtexModel.Lemmas.BibWriteCase
 
 namespace Pybtex.C02
 open Pybtex Pybtex.Spec Pybtex.Bib Pybtex.BibWrite Pybtex.BibSpec Pybtex.Names Pybtex.BibRT
@@ -420,11 +421,16 @@ theorem distinctFrom_append : ∀ (a b : List (Str × Str)) (seen : List Str),
     refine ⟨h1, ih b _ h2 ?_⟩
     simpa [List.append_assoc] using hb
 
+/-- on ASCII keys the reader's key folding (`Bib.keyFold` = `str.lower()`, the Unicode mapping) is the
+ASCII lower-casing of the BibTeX domain `WFDb` -/
+theorem keyFold_ascii {k : Str} (h : isAsciiStr k = true) : keyFold k = lower k := lowerU_ascii h
+
 structure EntryGood (keys : List Str) (e : Entry) : Prop where
   ty : isName e.origType = true
   notReserved : reserved.contains (lower e.origType) = false
   lowType : e.type = lower e.origType
   key : keyOk false e.key = true
+  asciiKey : isAsciiStr e.key = true
   fresh : keys.contains (lower e.key) = false
   roles : ∀ r ∈ e.persons, RoleGood r
   fields : ∀ f ∈ e.fields, FieldGood f
@@ -432,10 +438,10 @@ structure EntryGood (keys : List Str) (e : Entry) : Prop where
 
 theorem entryGood_of_ok {keys : List Str} {e : Entry} (h : entryOkW keys e = true) : EntryGood keys e := by
   simp only [entryOkW, Bool.and_eq_true, Bool.not_eq_true', beq_iff_eq] at h
-  obtain ⟨⟨⟨⟨⟨⟨⟨h1, h2⟩, h3⟩, h4⟩, _⟩, h5⟩, h6⟩, h7⟩ := h
+  obtain ⟨⟨⟨⟨⟨⟨⟨h1, h2⟩, h3⟩, h4⟩, hk⟩, h5⟩, h6⟩, h7⟩ := h
   obtain ⟨r1, r2⟩ := rolesOkW_unpack _ _ h6
   obtain ⟨f1, f2⟩ := fieldsOkW_unpack _ _ h7
-  refine ⟨h1, h2, h3, h4, h5, r1, f1, ?_⟩
+  refine ⟨h1, h2, h3, h4, hk, h5, r1, f1, ?_⟩
   unfold rawFields
   apply distinctFrom_append _ _ _ r2
   have := distinctFrom_extra e.fields [] ((rolesRaw e.persons).map fun f => lower f.1).reverse f2
@@ -580,13 +586,14 @@ theorem entryText_render {e : Entry} (hne : rawFields e ≠ []) :
     | nil => exact absurd h hdne
     | cons a b => rfl
   simp only [renderCmd, entryLayout, applyMask_nil, List.nil_append, opener, closer, Bool.false_eq_true,
-    if_false, hemp, Bool.or_self, renderFields_raw _ hne, entryText, List.append_nil, List.append_assoc,
+    if_false, renderFields_raw _ hne, entryText, List.append_nil, List.append_assoc,
     List.cons_append]
 
 theorem cmdOk_entry {keys : List Str} {e : Entry} (hg : EntryGood keys e) (m : Macros) :
     cmdOk m keys (.entry e.origType e.key (docOfRaw (rawFields e))) (entryLayout e) = true := by
   have hf := fieldsOk_raw m (rawFields e) [] (rawGood_of_entry hg) hg.distinct
-  simp only [cmdOk, entryLayout, hg.ty, hg.notReserved, hg.key, hg.fresh, hf, Bool.not_false, Bool.and_true]
+  simp only [cmdOk, bareKeyOk, entryLayout, hg.ty, hg.notReserved, hg.key, keyFold_ascii hg.asciiKey, hg.fresh, hf,
+    Bool.not_false, Bool.and_true, Bool.true_or]
   decide
 
 
@@ -641,12 +648,13 @@ theorem parseLoop_entries : ∀ (es : List Entry) (first : Bool) (fuel : Nat) (s
     have hrest : s.rest = pre' ++ '@' :: (T ++ entriesText false es) := by
       rw [h]; simp only [entriesText, pre', hT, List.append_assoc, List.cons_append]
     rw [parseLoop_at fuel s pre' _ hrest hpre']
-    have hany : D.entries.any (fun x => lower x.key = lower e.key) = false := by
+    have hkl : keyFold e.key = lower e.key := keyFold_ascii hg.asciiKey
+    have hany : D.entries.any (fun x => keyFold x.key = keyFold e.key) = false := by
       rw [List.any_eq_false]
       intro x hx hek
       have := hinv.keys x hx
       simp only [decide_eq_true_eq] at hek
-      rw [hek] at this
+      rw [hek, hkl] at this
       have hf := hg.fresh
       simp only [List.contains_eq_mem, decide_eq_false_iff_not] at hf
       exact hf this
@@ -654,7 +662,8 @@ theorem parseLoop_entries : ∀ (es : List Entry) (first : Bool) (fuel : Nat) (s
       have h1 := entryText_length_pos e
       simp only [entriesText, List.length_append] at hfuel
       omega
-    have hkeys' : ∀ x ∈ D.entries ++ [e], lower x.key ∈ lower e.key :: keys := by
+    have hkeys' : ∀ x ∈ D.entries ++ [e], keyFold x.key ∈ lower e.key :: keys := by
+      rw [← hkl]
       intro x hx
       rcases List.mem_append.1 hx with hx | hx
       · exact List.mem_cons_of_mem _ (hinv.keys x hx)
